@@ -656,6 +656,8 @@ class Hdf5Storage(Storage):
     def save(self, key, value):
         if not self._opened:
             raise ValueError('Trying to access closed storage')
+        if key in self.h5gr:
+            del self.h5gr[key]  # overwrite: save_to_hdf5 refuses to write under an existing name
         save_to_hdf5(self.h5gr, value, key)
 
     def delete(self, key):
